@@ -28,12 +28,23 @@ def _names_of(pred, TRr, notes):
     out = set()
 
     def idname(t):
-        if t[0] == "call" and str(t[1]).endswith(".get") and len(t) >= 4 and T.is_const(t[2]) and t[3] == T.NONE:
-            return t[2][1]
+        if t[0] == "call" and str(t[1]).endswith(".get") and len(t) >= 4 and T.is_const(t[2]) and (t[3] == T.NONE or (T.is_num_const(t[3]) and t[3][1] < 0)):
+            return t[2][1]          # a missing name yields None or a negative sentinel: no row carries such a name id
         if t[0] == "call" and str(t[1]).endswith(".get"):
-            notes.append(f"symbol lookup default is {T.show(t[3]) if len(t) > 3 else 'missing'} (must be None so that a missing name matches no row)")
+            notes.append(f"symbol lookup default is {T.show(t[3]) if len(t) > 3 else 'missing'} (must be None or a negative sentinel so that a missing name matches no row)")
         return None
 
+    if pred[0] == "and":
+        # a conjunction: name alternatives AND (optionally) "the launch has a linked activity" - the latter only removes launches that have no pair anyway
+        linked = T.cmp(">", T.col(TRr, "index_correlation"), T.C(0))
+        for c in pred[1]:
+            if c == linked:
+                continue
+            sub = _names_of(c, TRr, notes)
+            if sub is None or sub == "TRUTHY":
+                return sub
+            out |= sub
+        return out
     for d in (pred[1] if pred[0] == "or" else (pred,)):
         if d[0] == "in" and d[1] == NAME and d[2][0] == "set":
             for mem in d[2][1]:
@@ -83,7 +94,7 @@ def run(db, chk) -> None:
 
     for mem in (True, False):
         I = Interp(db, call_hook=hook)
-        runs = I.explore(ref, lambda I: {"cls": Obj("cls", cls=(m, "CudaKernelAnalysis")), "t": Obj("t", attrs={"symbol_table": Obj("symtab")}), "ranks": [R0, R1],
+        runs = I.explore(ref, lambda I: {"cls": Obj("cls", cls=(m, "CudaKernelAnalysis")), "t": Obj("t", attrs={"symbol_table": Obj("symtab", cls=(db.mod("hta.common.trace_symbol_table"), "TraceSymbolTable"))}), "ranks": [R0, R1],
                                          "include_memory_events": mem, "visualize": False})
         runs = [r for r in runs if r.raised is None and isinstance(r.ret, dict)]
         if not runs or len(runs) > 8:
